@@ -2,7 +2,13 @@
 """Sensitivity regression: apply every kept seeded change in turn, run the target property's
    quick check, undo; report any change that is no longer detected.
 
-   usage: tools/seed_rerun_all.py [--jobs N] [ids...]     (writes /verif/seeded/RERUN.json)
+   usage: tools/seed_rerun_all.py [--jobs N] [--seeds 1,2,3] [--candidates PREFIX --out FILE] [ids...]
+          (writes /verif/seeded/RERUN.json unless --out is given)
+
+   --seeds: run the check once per listed VERIF_SEED (one build per change); a change counts as
+   detected only if every seed reports it, and the per-seed verdicts are recorded.
+   --candidates PREFIX: instead of the kept changes, take the not yet filed candidates
+   /tmp/seedwork/PREFIX-Cxx/mutantN.diff (development: the "first run" of a new seeding round).
 
    --jobs 1 (default): literally in /repo - git apply, ./check <id> quick, git checkout.
    --jobs N: N scratch git worktrees of /repo's HEAD under /tmp/pv-rerun, each with its own copy
@@ -17,6 +23,21 @@ if "--jobs" in args:
     i = args.index("--jobs")
     jobs = int(args[i + 1])
     del args[i:i + 2]
+seeds = ["1"]
+if "--seeds" in args:
+    i = args.index("--seeds")
+    seeds = args[i + 1].split(",")
+    del args[i:i + 2]
+candidates = None
+if "--candidates" in args:
+    i = args.index("--candidates")
+    candidates = args[i + 1]
+    del args[i:i + 2]
+outfile = "/verif/seeded/RERUN.json"
+if "--out" in args:
+    i = args.index("--out")
+    outfile = args[i + 1]
+    del args[i:i + 2]
 want = set(args)
 ENV = dict(os.environ, CARGO_NET_OFFLINE="true")
 
@@ -28,40 +49,62 @@ def sh(cmd, cwd="/verif", env=None):
 
 assert sh(["git", "-C", "/repo", "status", "--short"])[1].strip() == "", "/repo not clean"
 out = {"harness_commit": sh(["git", "rev-parse", "--short", "HEAD"])[1].strip(), "results": {}}
-if want and os.path.exists("/verif/seeded/RERUN.json"):
+out["seeds"] = seeds
+if want and os.path.exists(outfile):
     # partial re-run: keep the other results
-    old = json.load(open("/verif/seeded/RERUN.json"))
+    old = json.load(open(outfile))
     out["results"] = old.get("results", {})
     out["partial_update_of"] = old.get("harness_commit")
 
 todo = []
-for d in sorted(glob.glob("/verif/seeded/*/")):
-    sid = os.path.basename(d.rstrip("/"))
-    if want and sid not in want:
-        continue
-    todo.append((sid, d, json.load(open(d + "meta.json"))["breaks_property"]))
+if candidates:
+    for f in sorted(glob.glob("/tmp/seedwork/%s-C*/mutant*.diff" % candidates)):
+        prop = f.split("/")[-2].split("-")[-1]
+        sid = "%s-%s" % (prop, os.path.basename(f)[:-5])
+        if want and sid not in want:
+            continue
+        todo.append((sid, f, prop))
+else:
+    for d in sorted(glob.glob("/verif/seeded/*/")):
+        sid = os.path.basename(d.rstrip("/"))
+        if want and sid not in want:
+            continue
+        todo.append((sid, d + "patch.diff", json.load(open(d + "meta.json"))["breaks_property"]))
 
 lock = threading.Lock()
 
 
-def record(sid, prop, rc, o, t0):
-    det = rc == 1 and "VIOLATION property=%s" % prop in o
+def record(sid, prop, runs, t0):
+    """runs: list of (seed, exit code, output)"""
+    per = {sd: (rc == 1 and "VIOLATION property=%s" % prop in o) for sd, rc, o in runs}
+    det = all(per.values())
+    reason = ""
+    for sd, rc, o in runs:
+        for l in o.splitlines():
+            if l.strip().startswith("reason:"):
+                reason = l.strip()[:200]
+                break
+        if reason:
+            break
     with lock:
-        out["results"][sid] = {"check": prop, "exit": rc, "detected": det, "wall_s": round(time.time() - t0, 1)}
-        print(sid, "detected" if det else "MISSED (exit %d)" % rc, flush=True)
+        out["results"][sid] = {"check": prop, "exit": [rc for _, rc, _ in runs], "detected": det, "per_seed": per, "reason": reason, "wall_s": round(time.time() - t0, 1)}
+        print(sid, "detected" if det else "MISSED %s" % per, reason[:120], flush=True)
 
 
 if jobs <= 1:
     out["how"] = "git -C /repo apply; ./check <property> quick; git -C /repo checkout -- ."
     for sid, d, prop in todo:
-        rc, o = sh(["git", "-C", "/repo", "apply", d + "patch.diff"])
+        rc, o = sh(["git", "-C", "/repo", "apply", d])
         if rc != 0:
             out["results"][sid] = {"error": "does not apply", "detected": False}
             continue
         try:
             t0 = time.time()
-            rc, o = sh(["./check", prop, "quick"])
-            record(sid, prop, rc, o, t0)
+            runs = []
+            for sd in seeds:
+                rc, o = sh(["./check", prop, "quick"], env=dict(ENV, VERIF_SEED=sd))
+                runs.append((sd, rc, o))
+            record(sid, prop, runs, t0)
         finally:
             sh(["git", "-C", "/repo", "checkout", "--", "."])
 else:
@@ -94,7 +137,7 @@ else:
                         return
                     sid, d, prop = queue.pop(0)
                 sh(["git", "checkout", "-q", "--", "."], cwd=wt)
-                rc, o = sh(["git", "apply", d + "patch.diff"], cwd=wt)
+                rc, o = sh(["git", "apply", d], cwd=wt)
                 if rc != 0:
                     with lock:
                         out["results"][sid] = {"error": "does not apply", "detected": False}
@@ -106,8 +149,11 @@ else:
                         out["results"][sid] = {"error": "build failed", "detected": False}
                         print(sid, "BUILD FAILED", o[-300:], flush=True)
                     continue
-                rc, o = sh([hc + "/target/release/pv", prop, "quick"], cwd=hc, env=env)
-                record(sid, prop, rc, o, t0)
+                runs = []
+                for sd in seeds:
+                    rc, o = sh([hc + "/target/release/pv", prop, "quick"], cwd=hc, env=dict(env, VERIF_SEED=sd))
+                    runs.append((sd, rc, o))
+                record(sid, prop, runs, t0)
                 sh(["git", "checkout", "-q", "--", "."], cwd=wt)
 
         ts = [threading.Thread(target=work, args=w) for w in workers]
@@ -120,5 +166,5 @@ else:
         shutil.rmtree(root, ignore_errors=True)
 
 out["missed"] = sorted(k for k, v in out["results"].items() if not v.get("detected"))
-json.dump(out, open("/verif/seeded/RERUN.json", "w"), indent=1, sort_keys=True)
+json.dump(out, open(outfile, "w"), indent=1, sort_keys=True)
 print("done: %d changes, %d missed: %s" % (len(out["results"]), len(out["missed"]), out["missed"]))
